@@ -376,6 +376,11 @@ def parse_dict_header(value: str) -> dict[str, str | None]:
             # key*=charset''value becomes key=value, where value is percent encoded
             # adapted from parse_options_header, without the continuation handling
             key = key[:-1]
+
+            if not key:
+                # *=value is not valid either
+                continue
+
             match = _charset_value_re.match(value)
 
             if match:
